@@ -34,7 +34,7 @@ BUDGET = {"quick": {"runs": 300, "chunk": 6}, "thorough": {"runs": 30000, "chunk
 COMPONENTS = {"real": ["Solution.to_hdf5/from_hdf5", "Device/Polygon/Layer/Mesh/EdgeMesh (de)serialisation", "Parameter/CompositeParameter pickling", "SolverOptions round trip", "seeding a run from a reloaded solution"], "stub": ["wall clock (simulated, so time_created is reproducible)"]}
 ASSUMPTIONS = ["Only state produced by simulated runs is round-tripped; the quantifier over all devices/option combinations/expression trees is sampled, not covered."]
 
-OPS = ["reload", "reload-step", "copy", "orphan-copy", "moved-save", "moved-save-inplace", "dynamics-h5", "device-h5", "device-h5-nomesh", "mesh-h5", "mesh-h5-compressed", "pickle-device", "pickle-params", "seed-run", "equality"]
+OPS = ["reload", "reload-step", "copy", "orphan-copy", "moved-save", "moved-save-inplace", "dynamics-h5", "main-def", "device-h5", "device-h5-nomesh", "mesh-h5", "mesh-h5-compressed", "pickle-device", "pickle-params", "seed-run", "equality"]
 MESH_ARRAYS = ("sites", "elements", "boundary_indices", "areas", "dual_sites")
 EDGE_ARRAYS = ("edges", "centers", "boundary_edge_indices", "directions", "edge_lengths", "dual_edge_lengths")
 
@@ -65,6 +65,13 @@ def gen(seed, idx, tier):
     if rnd.random() < 0.2:
         scn["faults"] = [{"kind": "sigint", "at": {"point": rnd.choice(["update.before", "update.after"]), "stage": "S", "step": rnd.randint(1, max(1, scn["meta"]["steps"] - 1))}}]
     ops = [rnd.choice(OPS) for _ in range(rnd.randint(3, 6))]
+    cur_ = scn["drive"].get("currents")
+    if cur_ is not None and cur_["kind"] in ("const", "const_callable") and rnd.random() < 0.3:
+        # the bias current is a plain top-level function of the user's script (__main__); the name is
+        # re-used for another function later in the session, before the file is read back
+        cur_["kind"] = "main_def"
+        cur_["name"] = "user_bias_current"
+        ops = ops + ["main-def"]
     scn["storage_ops"] = ops
     return scn
 
@@ -392,6 +399,20 @@ def run(scn):
                         r = cmp_arrays(getattr(re.tdgl_data, name), getattr(re2.tdgl_data, name), f"moved {name}")
                         if r:
                             diffs.append(r)
+                    report(op, diffs)
+                elif op == "main-def":
+                    cur_ = scn["drive"].get("currents")
+                    if cur_ is None or cur_["kind"] != "main_def":
+                        done += 1
+                        continue
+                    want_I = dict(cur_["I"])
+                    # later in the same session the name is bound to another function
+                    B.define_in_main(cur_["name"], {k: 3.0 * v + 1.0 for k, v in want_I.items()})
+                    re = tdgl.Solution.from_hdf5(path)
+                    got_I = re.terminal_currents(0.0) if callable(re.terminal_currents) else re.terminal_currents
+                    diffs = []
+                    if {k: float(v) for k, v in dict(got_I).items()} != {k: float(v) for k, v in want_I.items()}:
+                        diffs.append(f"terminal_currents of the solution read back evaluates to {dict(got_I)} where the saved run used {want_I} (the function is a top-level def of __main__ whose name was re-used afterwards)")
                     report(op, diffs)
                 elif op == "dynamics-h5":
                     # the per-step records saved on their own (DynamicsData.to_hdf5 into a group) and read back
